@@ -187,3 +187,22 @@ def validate_traces(module: str, traces: list, *, cfg: str | None = None, chunk:
         total = TlcResult(module=module, ok=True, generated=sum(r.generated for r in agg),
                           distinct=sum(r.distinct for r in agg), wall_s=sum(r.wall_s for r in agg))
     return verdicts, total  # type: ignore[return-value]
+
+
+def run_tlapm(rel_path: str, timeout: int = 900) -> dict:
+    """Check a TLAPS proof module (spec/<rel_path>) in a scratch directory; returns {"obligations": n, "proved": bool}."""
+    import re
+    import shutil
+    import subprocess
+    import tempfile
+    import time
+    src = SPEC / rel_path
+    t0 = time.time()
+    with tempfile.TemporaryDirectory(prefix="rvtlaps") as tmp:
+        shutil.copy(src, tmp)
+        out = subprocess.run(["tlapm", src.name], cwd=tmp, capture_output=True, text=True, timeout=timeout)
+    text = out.stdout + out.stderr
+    m = re.search(r"All (\d+) obligations? proved", text)
+    if not m:
+        raise MachineryError(f"TLAPS did not prove {rel_path}:\n" + "\n".join(text.splitlines()[-25:]))
+    return {"module": rel_path, "obligations": int(m.group(1)), "proved": True, "wall_s": round(time.time() - t0, 2)}
